@@ -56,6 +56,9 @@ class Provenance:
         scalar: Callable[[ast.AST], bool],
         attr_tags: "Callable[[ast.Attribute], set[str] | None] | None" = None,
         assume: "Callable[[ast.AST, dict], bool | None] | None" = None,
+        passes: "Callable[[ast.Call], bool] | None" = None,
+        init: "dict[str, Tags] | None" = None,
+        depth: int = 0,
     ) -> None:
         """source(call, tags of the positional arguments) -> tags of the call's result (None: not a source);
         attr_tags(attribute expression) -> additional tags of an attribute read;
@@ -66,6 +69,11 @@ class Provenance:
         self.scalar = scalar
         self.attr_tags = attr_tags
         self.assume = assume
+        # passes(call): the call hands its tagged arguments on unchanged (constructor of a carrier, copy).  When given, every
+        # other operation on a tagged value leaves a mark:  via:filter:<cond> (elements may be dropped) / via:call:<f> / via:op
+        self.passes = passes
+        self.init = dict(init or {})
+        self.depth = depth
         self.tags: dict[int, Tags] = {}
         self.before: dict[int, dict[str, Tags]] = {}
         self._run()
@@ -98,7 +106,7 @@ class Provenance:
     # ------------------------------------------------------------------ driver
     def _run(self) -> None:
         g = self.fn.cfg.g
-        states: dict[object, dict[str, Tags]] = {ENTRY: {}}
+        states: dict[object, dict[str, Tags]] = {ENTRY: dict(self.init)}
         work = [ENTRY]
         steps = 0
         while work:
@@ -178,6 +186,39 @@ class Provenance:
                 if r is not None:
                     st[r] = st.get(r, EMPTY) | v
 
+    def _through_helper(self, call: ast.Call, argtags: list) -> Tags | None:
+        """Tags of the result of a private repo helper, obtained by analysing the helper with its parameters tagged like the
+        arguments (one level of context; helpers that cannot be resolved uniquely are left to the caller)."""
+        if self.depth >= 2:
+            return None
+        callee = self.fn.callee(call)
+        if callee is None or isinstance(callee.node, ast.Lambda) or callee.is_property:
+            return None
+        if not (callee.name.startswith("_") or callee.outer is not None or callee.cls is None):
+            return None
+        a = callee.node.args
+        if a.vararg or a.kwarg or any(isinstance(x, ast.Starred) for x in call.args) or any(k.arg is None for k in call.keywords):
+            return None
+        pos = [p.arg for p in [*a.posonlyargs, *a.args]]
+        if callee.cls is not None and callee.outer is None and not callee.is_staticmethod and pos:
+            pos = pos[1:]
+        init: dict[str, Tags] = {}
+        values = list(argtags)
+        for p, t in zip(pos, values[: len(call.args)]):
+            init[p] = t
+        for k, t in zip(call.keywords, values[len(call.args):]):
+            init[k.arg] = t
+        sub = Provenance(Fn(self.fn.repo, callee), lambda c, a_: None, self.scalar, None, None, self.passes, init, self.depth + 1)
+        out = EMPTY
+        found = False
+        from core.loader import own_nodes
+
+        for r in own_nodes(callee.node):
+            if isinstance(r, ast.Return) and r.value is not None:
+                found = True
+                out |= sub.of(r.value)
+        return out if found else None
+
     # ------------------------------------------------------------------ expressions
     def _ev(self, e: ast.AST, st: dict[str, Tags]) -> Tags:
         t = self._ev_inner(e, st)
@@ -217,6 +258,15 @@ class Provenance:
             out = recv
             for v in args:
                 out |= v
+            if self.passes is not None and out and any(not t.startswith(("pre:", "via:", "acc:")) for t in out):
+                fname = e.func.id if isinstance(e.func, ast.Name) else e.func.attr if isinstance(e.func, ast.Attribute) else "?"
+                if fname == "filter":
+                    out |= {"via:filter:filter()"}
+                elif not self.passes(e) and not (isinstance(e.func, ast.Attribute) and e.func.attr in MUTATORS):
+                    got = self._through_helper(e, pos)
+                    if got is not None:
+                        return got
+                    out |= {f"via:call:{fname}"}
             # in-place change of a tracked container / object
             if isinstance(e.func, ast.Attribute) and e.func.attr in MUTATORS:
                 add = EMPTY
@@ -251,7 +301,14 @@ class Provenance:
                     self._ev(c, inner)
             if isinstance(e, ast.DictComp):
                 return self._ev(e.key, inner) | self._ev(e.value, inner)
-            return self._ev(e.elt, inner)
+            out = self._ev(e.elt, inner)
+            if self.passes is not None and any(not t.startswith(("pre:", "via:", "acc:")) for t in out):
+                ifs = [c for g in e.generators for c in g.ifs]
+                if ifs:
+                    out |= {"via:filter:" + " ".join(ast.unparse(ifs[0]).split())[:80]}
+                elif not isinstance(e.elt, ast.Name):
+                    out |= {"via:map"}
+            return out
         if isinstance(e, ast.IfExp):
             self._ev(e.test, st)
             return self._ev(e.body, st) | self._ev(e.orelse, st)
@@ -261,7 +318,10 @@ class Provenance:
                 out |= self._ev(v, st)
             return out
         if isinstance(e, ast.BinOp):
-            return self._ev(e.left, st) | self._ev(e.right, st)
+            out = self._ev(e.left, st) | self._ev(e.right, st)
+            if self.passes is not None and not isinstance(e.op, (ast.Add, ast.BitOr)) and any(not t.startswith(("pre:", "via:", "acc:")) for t in out):
+                out |= {"via:op"}
+            return out
         if isinstance(e, ast.UnaryOp):
             t = self._ev(e.operand, st)
             return EMPTY if isinstance(e.op, ast.Not) else t
